@@ -18,11 +18,15 @@ type c19Case struct {
 
 var c19Tokens = []string{
 	"##!", "##!>", "##!<", "##!=>", "##!=<", "##!+", "##!^", "##!$", " assemble", " cmdline", " unix", " windows", " include", " include-except", " define", " -- ", "{{", "}}", "name", " i", " s", " x",
-	"\n", "\n", "\n", "\n", "\r\n", "(", ")", `\(`, `\)`, "(?:", "(?i:", "(?s:", "?i:", "?s:", "?-s:", "(?i)", "(?s)", "(?-s:", "(?m:", "(?U)", "(?P<n>", "(?", "[", "]", "[^", `\[`, `\]`, "[:alpha:]", "|", "*", "+", "?", "{2}", "{1,", "{,3}", "}", ".", "^", "$",
+	"\n", "\n", "\n", "\n", "\r\n", "(", ")", `\(`, `\)`, "(?:", "(?i:", "(?s:", "?i:", "?s:", "?-s:", "(?i)", "(?s)", "(?-s:", "(?m:", "(?U)", "(?P<n>", "(?", `\(?i:`, `\(?s:`, `\(?-s:`, `.\(?i:`, `^\(?i:`, "[", "]", "[^", `\[`, `\]`, "[:alpha:]", "|", "*", "+", "?", "{2}", "{1,", "{,3}", "}", ".", "^", "$",
 	`\`, `\\`, `"`, `\"`, "'", "a", "b", "foo", "A", "Z", `\d`, `\s`, `\S`, `\b`, `\x5c`, `\x`, `\x{`, `\x{110000}`, `\p{Greek}`, `\pL`, `\Q`, `\E`, `\1`, `\z`, "é", "ß", "\x80", "\xff", "\xc3", "\x00", "\x01", "\x0b", "\x7f", "\t", " ", "-", "@", "~", `\@`, `\~`, ",", "#", "##", "{1000}", "{2,1}", "**", "+?", "??",
 }
 
 var c19Seeds = []string{
+	// processor start lines with missing or odd arguments
+	"##!> cmdline\nls\n##!<\n", "##!> cmdline UNIX\nls\n##!<\n", "##!> cmdline 1\n", "##!>cmdline\n", "##!> cmdline  \nls\n", "##!> assemble x\na\n##!<\n", "##!> assemble\n##!> cmdline\n", "##!> define\n", "##!> define x\n", "##!> include-except x\n", "##!>\n", "##!> \n", "##!> cmdline unix windows\nls\n##!<\n",
+	// a flag group that the clean-up removes, followed by an escaped look-alike further right
+	`.\(?i:a`, `a.b\(?s:c`, `^a\(?i:b`, `x$\(?-s:y`, `[bB]\(?i:c)`, `.\(?i:a)|\(?s:b`, `(?:a|.)\(?i:`, "a.\n\\(?i:b\n", `^\.html(?i:x)`, `.\.html(?i:x)`, `^(a\(?i:b)`, `[zZ]oo\(?s:`,
 	`a\(?i:b`, `(\(?s)x`, `\(?i:`, `x\(?-s:y)z`, `\\(?i:b)`, `a\\\(?s:b`, `(?:\(?i:a)|b)`, `[\(?i:]`, "##!+ i\n\\(?i:a\n", "a\n##!=>\n\\(?s:\n##!=>\nb\n",
 	"##!> assemble\n##!<\n##!<\n", "##!> cmdline unix\n@\n~\n\\@\n'\n##!<\n", "##!> cmdline windows\n\n \n##!<\n", "##!=< \n", "##!=> \n##!=< x\n##!=> x\n", "##!> include\n", "##!> include-except\n", "##!> include-except a\n",
 	"##!> define a {{a}}\n{{a}}\n", "##!> define a {{b}}\n##!> define b {{a}}\n{{a}}{{b}}\n", "##!^ (\n##!$ )\nx\n", "##!^ [\n##!$ ]\nx\n", "(?i)a\n(?s).\n", "a|b|\n|\n", "()\n(|)\n", "[]]\n[^]]\n", "\\\n", "x{2}{3}\n", "a**\n",
